@@ -82,7 +82,106 @@ def run(ctx: Ctx) -> None:
     ctx.rule("D10.6", "the cells of dest are the documented terms of J; "
              "J = sum / simulated time")
     c10_jkernel.j_terms(ctx)
+    ctx.rule("D10.9", "callers hand the simulation its own settings: a "
+             "setting named like a parameter of run_ode / multi_run_ode is "
+             "passed as that parameter, and test / training settings are "
+             "not mixed in one call")
+    _callers(ctx, ro)
 
+
+
+# ------------------------------------------------------------------ D10.9
+def _callers(ctx: Ctx, ro: FuncInfo) -> None:
+    """Wiring of the simulation's callers (the time limit and step count a
+    run obeys are the ones its caller hands over)."""
+    from sa.srcmodel import inline_locals
+    repo = ctx.repo
+    targets = {ro}
+    mro = repo.module(ro.module.name).funcs.get("multi_run_ode")
+    if mro is not None:
+        targets.add(mro)
+    n_calls = 0
+    for fi in repo.all_funcs():
+        if not fi.module.name.startswith("moptipyapps.dynamic_control"):
+            continue
+        loops: list[tuple[ast.For, set[int]]] = [
+            (lp, {id(x) for x in ast.walk(lp)}) for lp in ast.walk(fi.node)
+            if isinstance(lp, ast.For)]
+        for c in ast.walk(fi.node):
+            if not isinstance(c, ast.Call):
+                continue
+            callee = repo.resolve_expr(fi.module, c.func)
+            if callee not in targets:
+                continue
+            n_calls += 1
+            params = list(callee.params)
+            bound: list[tuple[str, ast.expr]] = list(zip(params, c.args))
+            bound += [(k.arg, k.value) for k in c.keywords if k.arg]
+            problems: list[str] = []
+
+            def leaf(e: ast.expr) -> str | None:
+                e = inline_locals(fi.node, e)
+                if isinstance(e, ast.Attribute):
+                    return e.attr
+                if isinstance(e, ast.Name):
+                    return e.id
+                return None
+            kinds: dict[str, str] = {}
+            for p_, a in bound:
+                nm = leaf(a)
+                if nm is None:
+                    continue
+                if nm != p_ and nm in params:
+                    problems.append(
+                        f"`{ast.unparse(a)}` is passed as the parameter "
+                        f"`{p_}` of {callee.name} although {callee.name} "
+                        f"has a parameter `{nm}`")
+                for pre in ("test", "training"):
+                    if nm.startswith(pre + "_"):
+                        kinds[pre] = ast.unparse(a)
+            for lp, inside in loops:
+                if id(c) in inside:
+                    nm = leaf(lp.iter)
+                    for pre in ("test", "training"):
+                        if nm is not None and nm.startswith(pre + "_"):
+                            kinds.setdefault(pre, ast.unparse(lp.iter))
+            if callee is ro and len(kinds) > 1:
+                problems.append(
+                    "one simulation is given test and training settings at "
+                    f"once: {sorted(kinds.values())}")
+            ctx.ob("D10.9", fi, c, not problems,
+                   f"{fi.qualname}: {callee.name}(...) receives every "
+                   "setting under the parameter of its name"
+                   if not problems else f"{fi.qualname}: "
+                   + "; ".join(problems),
+                   construct=f"{callee.name} call in {fi.qualname}")
+    # the refactored form: one loop over (states, steps, time) tuples
+    if mro is not None:
+        for lp in ast.walk(mro.node):
+            if isinstance(lp, ast.For) and isinstance(
+                    lp.iter, (ast.Tuple, ast.List)):
+                for el in lp.iter.elts:
+                    if not isinstance(el, (ast.Tuple, ast.List)):
+                        continue
+                    pre = set()
+                    for x in el.elts:
+                        nm = x.id if isinstance(x, ast.Name) else (
+                            x.attr if isinstance(x, ast.Attribute) else "")
+                        for q in ("test", "training"):
+                            if nm.startswith(q + "_"):
+                                pre.add(q)
+                    if len(pre) > 1:
+                        ctx.ob("D10.9", mro, el, False,
+                               f"`{ast.unparse(el)}` groups test and "
+                               "training settings for one kind of run",
+                               construct="settings grouped per run kind")
+    ctx.count("simulation_call_sites", n_calls)
+    ctx.ob("D10.9", ro, ro.node, n_calls >= 3,
+           f"{n_calls} call sites of run_ode / multi_run_ode inspected "
+           "(4 on the reference tree, at least 3 expected: the objective, "
+           "the system description and the multi-run loop)",
+           construct="call sites found",
+           nontrivial=False)
 
 
 # ------------------------------------------------------------------ D10.1
